@@ -73,9 +73,10 @@ def file_state(root, rel):
     except FileNotFoundError:
         return ('absent',)
     except NotADirectoryError:
-        # a path beneath something that is a regular file now does not exist: for the statement such an entry names
-        # a missing file like any other (it must be reported as a mismatch; a raw ENOTDIR may not end a keep-going scan)
-        return ('absent',)
+        # a path beneath something that is a regular file now: for a LISTED path this is a missing file like any other
+        # (entry_matches: 'missing' - it must be reported as a mismatch, a raw ENOTDIR may not end a keep-going
+        # scan); for an unlisted path single-path verification may pass or hand on the ENOTDIR (expected_path_verify)
+        return ('enotdir',)
     except OSError as e:
         return ('other', f'errno{e.errno}')
     if stat.S_ISREG(st.st_mode):
@@ -93,7 +94,7 @@ def entry_matches(state, size, cks):
     if state[0] == 'absent':
         return 'missing'
     if state[0] == 'enotdir':
-        return 'enotdir'
+        return 'missing'
     if state[0] == 'other':
         return 'type:' + state[1]
     _k, rsize, _mt, data = state
